@@ -348,8 +348,10 @@ class FreeEnergy(InterpolatableFunction):
             while ode.status == "running":
                 try:
                     ode.step()
-                except RuntimeWarning as error:
-                    logging.error(error.args[0] + f" at T={ode.t}")
+                except (RuntimeWarning, np.linalg.LinAlgError) as error:
+                    # A singular Hessian (LinAlgError from the linear solve in
+                    # odeFunction) means the phase ends here: stop like for a warning.
+                    logging.error(str(error.args[0]) + f" at T={ode.t}")
                     break
                 if paranoid:
                     phaset, potentialEffT = self.effectivePotential.findLocalMinimum(
